@@ -259,6 +259,11 @@ def extra_args(cls, name, recv):
         return [(P.Query.from_(a).select("x") + P.Query.from_(b).select("x")).as_("people"),          # an aliased set operation
                 P.Query.from_(a).select("x").union(P.Query.from_(b).select("x")).as_("sq0"),            # ... whose alias looks automatic
                 P.Query.from_(a).select("x").as_("mine"), P.AliasedQuery("cte_x"), T_("pc", alias="pcx")]
+    if name == "do_update" and getattr(recv, "_on_conflict", False):
+        # a column given as a Field OBJECT without a table (not a str); the same object is held by a statement built earlier (with a join: qualifiers print)
+        f0 = T.Field("qty")
+        earlier = P.Query.from_(T_("pa")).join(T_("pb")).on(T_("pa").k == T_("pb").k).select(f0, T_("pb").v)   # noqa: F841  (kept alive through f0's observers)
+        out.append(((lambda r, f0=f0: r.do_update(f0, 5)), [f0, earlier]))
     if name == "from_":
         for src in mk_sources():
             out.append(((lambda r, src=src: r.from_(src)), [src]))
